@@ -6,6 +6,8 @@ extern crate tracing;
 
 mod checks;
 mod fixtures;
+#[allow(dead_code)]
+mod idmfx;
 mod pw;
 #[allow(dead_code)]
 mod srv;
